@@ -11,8 +11,8 @@ import numpy as np
 from harness import common as C
 
 PROP = "C20"
-TARGETS = ["IbicusModel.Props.C20", "IbicusModel.Lemmas.GenEvaluateGrid"]  # the audit imports both
-GEN = ["Evaluate", "EvaluateConfig", "EvaluateGrid"]  # EvaluateGrid: grid-level structure (translator/extract_evalgrid.py)
+TARGETS = ["IbicusModel.Props.C20", "IbicusModel.Lemmas.GenEvaluateGrid", "IbicusModel.Lemmas.GenEvaluateGrid2"]  # the audit imports all three
+GEN = ["Evaluate", "EvaluateConfig", "EvaluateGrid", "EvaluateGrid2"]  # EvaluateGrid(2): grid-level structure (translator/extract_evalgrid(2).py)
 
 GRIDS = [(1, 1), (1, 3), (2, 2), (3, 1)]
 STATS = {"rows_checked_by_position": 0}
